@@ -48,7 +48,7 @@ CONFIGS = [
 OPS = [("set", ("k", b"v"), {"noreply": False}), ("get", ("h1",), {}), ("get_many", (["h1", "h2"],), {}),
        ("set", ("k", b"v"), {"noreply": True}), ("delete_many", (["h1", "m1"],), {"noreply": False})]
 PROBES = [("get", ("h2",), {}), ("add", ("probe", b"p"), {"noreply": False})]
-HARD = {"refused", "timeout", "unreach", "reset", "brokenpipe", "timeout_delivered", "eof", "oserror", "gaierror"}
+HARD = {"refused", "timeout", "unreach", "reset", "brokenpipe", "timeout_delivered", "eof", "oserror", "gaierror", "valueerror", "overflow"}
 
 
 def build_cfg(c):
